@@ -347,11 +347,7 @@ Theorem C03_force_close_once_foreign_partial : forall mark wc hw ops,
   forall x e, xrun (xinit mark wc hw) ops = Ok (x, e) ->
     Inv (xbase x) /\ count is_up e <= 1 /\ count is_down e <= count is_up e /\
     (count is_down e = 1 <-> st (xbase x) = Disconnected).
-Proof.
-  exact (fun mark wc hw ops Hrf =>
-           conj (proj1 (xrun_race_free ops _ (xinit_inv mark wc hw) Hrf))
-                (fun x e H => xrun_race_free_once mark wc hw ops x e Hrf H)).
-Qed.
+Proof. exact force_close_once_foreign_partial. Qed.
 Print Assumptions C03_force_close_once_foreign_partial.
 
 (* and C03_fin_all_on_wire over the x-machine: in a race-free history a connection that is up and
@@ -364,6 +360,76 @@ Theorem C03_fin_all_on_wire_race_free : forall mark wc hw ops x e,
   wire (xbase x) = flat_map step_block (xtrace (xinit mark wc hw) ops).
 Proof. exact xfin_all_on_wire. Qed.
 Print Assumptions C03_fin_all_on_wire_race_free.
+
+(* C03_shutdown_flushes_then_fin over the x-machine: the state any race-free history reaches satisfies
+   the same clauses (flush, then FIN in the step that empties the backlog), and there a Base op of
+   the x-machine is the op of the base machine the clauses talk about *)
+Theorem C03_shutdown_flushes_then_fin_race_free : forall mark wc hw ops x e,
+  race_free (xinit mark wc hw) ops -> xrun (xinit mark wc hw) ops = Ok (x, e) ->
+  ((st (xbase x) = Connected -> outb (xbase x) = [] ->
+     exists c', step (xbase x) Shutdown = Ok (c', [EvFin]) /\ fin c' = true /\ st c' = Disconnecting /\
+       wire c' = wire (xbase x) /\ outb c' = []) /\
+  (st (xbase x) = Connected -> outb (xbase x) <> [] -> step (xbase x) Shutdown = Ok (set_st (xbase x) Disconnecting, [])) /\
+  (st (xbase x) = Connected ->
+     step (xbase x) XShutdown = Ok (set_pending (set_st (xbase x) Disconnecting) (pending (xbase x) ++ [FShutdown]), [])) /\
+  (forall k rest, pending (xbase x) = FShutdown :: rest -> st (xbase x) = Disconnecting ->
+     (outb (xbase x) = [] -> exists c', step (xbase x) (RunOne k) = Ok (c', [EvFin]) /\ fin c' = true /\ wire c' = wire (xbase x) /\
+                                 pending c' = rest) /\
+     (outb (xbase x) <> [] -> step (xbase x) (RunOne k) = Ok (set_pending (xbase x) rest, []))) /\
+  (st (xbase x) = Disconnecting -> fin (xbase x) = false -> outb (xbase x) <> [] -> forall k n,
+     taken k (length (outb (xbase x))) = Some n -> 0 < n ->
+     exists c' e, step (xbase x) (EvWritable k) = Ok (c', e) /\
+       wire c' = wire (xbase x) ++ firstn n (outb (xbase x)) /\ outb c' = skipn n (outb (xbase x)) /\ st c' = Disconnecting /\
+       (n < length (outb (xbase x)) -> fin c' = false /\ e = [] /\ writing c' = true) /\
+       (n = length (outb (xbase x)) -> fin c' = true /\ e = [EvFin] /\ outb c' = [] /\ writing c' = false))) /\
+  forall o, xstep x (Base o) =
+    if (match o with RunOne _ => timer_due (xtimers x) | _ => false end) then Rejected else
+    match step (xbase x) o with
+    | Ok (c', e') => Ok (mkX c' (xreqs x) (xtimers_after (xbase x) o (xtimers x)), e')
+    | Rejected => Rejected
+    | Fault => Fault
+    end.
+Proof. exact xshutdown_flushes_then_fin. Qed.
+Print Assumptions C03_shutdown_flushes_then_fin_race_free.
+
+(* C03_force_close_effective over the x-machine.  In the state x a race-free history reaches, with
+   FForceClose in the queue behind |pre0| functors (put there by forceClose() on the loop thread, a
+   firing delayed close, or the hand-off of a foreign forceClose(): C03_force_close_requests), ANY
+   sequence of the loop's task steps ([is_task]: RunOne, or XRunTimer for a queued addTimerInLoop)
+   with more than |pre0| RunOne steps - any kernel answers, no peer event - ends Disconnected, and
+   the whole history has exactly one UP and one DOWN *)
+Theorem C03_force_close_effective_race_free : forall mark wc hw ops0 x e0,
+  race_free (xinit mark wc hw) ops0 -> xrun (xinit mark wc hw) ops0 = Ok (x, e0) ->
+  forall pre0 post0, pending (xbase x) = pre0 ++ FForceClose :: post0 ->
+  forall ops x' e, forallb is_task ops = true -> length pre0 < length (filter is_runone ops) ->
+  xrun x ops = Ok (x', e) ->
+  st (xbase x') = Disconnected /\ downs (xbase x') = 1 /\ count is_down (e0 ++ e) = 1 /\ count is_up (e0 ++ e) = 1.
+Proof. exact xforce_close_effective. Qed.
+Print Assumptions C03_force_close_effective_race_free.
+
+Theorem C03_is_task_def : forall o,
+  is_task o = (match o with XRunTimer => true | Base (RunOne _) => true | _ => false end) /\
+  is_runone o = (match o with Base (RunOne _) => true | _ => false end).
+Proof. exact is_task_unfold. Qed.
+Print Assumptions C03_is_task_def.
+
+(* the task steps never fault and are never refused: exactly one kind is enabled *)
+Theorem C03_loop_task_enabled : forall x, XInv x ->
+  (timer_due (xtimers x) = true -> exists x', xstep x XRunTimer = Ok (x', [])) /\
+  (timer_due (xtimers x) = false -> forall k, exists x' e, xstep x (Base (RunOne k)) = Ok (x', e)).
+Proof. exact loop_task_enabled. Qed.
+Print Assumptions C03_loop_task_enabled.
+
+(* how a request puts FForceClose at the end of the queue ([XInv x]: the invariant of the base
+   machine on xbase x, which every race-free history establishes) *)
+Theorem C03_force_close_requests : forall x, XInv x -> st (xbase x) = Connected \/ st (xbase x) = Disconnecting ->
+  (exists x1, xstep x (Base ForceClose) = Ok (x1, []) /\ pending (xbase x1) = pending (xbase x) ++ [FForceClose]) /\
+  (forall n, delayed (xbase x) = S n ->
+     exists x1, xstep x (Base DelayFire) = Ok (x1, []) /\ pending (xbase x1) = pending (xbase x) ++ [FForceClose]) /\
+  (forall t q, find_req t (xreqs x) = Some q -> rq_kind q = RForceClose -> rq_passed q = true -> rq_stored q = true ->
+     exists x1, xstep x (XEnq t) = Ok (x1, []) /\ pending (xbase x1) = pending (xbase x) ++ [FForceClose]).
+Proof. exact xforce_close_requests. Qed.
+Print Assumptions C03_force_close_requests.
 
 Theorem C03_race_free_def : forall x ops,
   race_free x ops =
@@ -606,4 +672,22 @@ Proof.
     try (vm_compute in E; discriminate).
   exists c. assert (Hr : reach c) by (eapply run_reach; [apply reach_init|exact E]).
   vm_compute in E. injection E as <- _. eexists. split; [exact Hr|]. vm_compute. split; reflexivity.
+Qed.
+
+(* a race-free history of the x-machine with a foreign forceCloseWithDelay() (its addTimerInLoop
+   queued) and a foreign forceClose() (FForceClose queued) in flight on an up connection with a
+   backlog: the hypotheses of C03_force_close_effective_race_free are met, and two task steps end
+   Disconnected *)
+Example ex_x_force :
+  let ops0 := [Base Establish; Base (Send [x61; x62] (Accept 1)); XCheck 5 RForceCloseDelay; XSet 5; XEnq 5;
+               XCheck 6 RForceClose; XSet 6; XEnq 6] in
+  race_free (xinit 4%N true true) ops0 /\
+  exists x e0, xrun (xinit 4%N true true) ops0 = Ok (x, e0) /\
+    pending (xbase x) = [FForceClose] /\ xtimers x = [0] /\ st (xbase x) = Disconnecting /\ outb (xbase x) = [x62] /\
+    exists x' e, xrun x [XRunTimer; Base (RunOne AcceptAll)] = Ok (x', e) /\
+      st (xbase x') = Disconnected /\ e = [EvDown] /\ delayed (xbase x') = 1.
+Proof.
+  split.
+  - vm_compute. repeat split; intros; reflexivity.
+  - vm_compute. eexists _, _. repeat split. eexists _, _. repeat split.
 Qed.
